@@ -2,6 +2,7 @@ package setec
 
 import (
 	"reflect"
+	"strings"
 
 	"github.com/tailscale/setec/types/api"
 )
@@ -17,7 +18,7 @@ type verifTarget struct {
 // C20 (partial): per-type assignment, naming, error isolation, on hand-built field lists.
 func verifHarnessC20Apply() {
 	verifEnvReset()
-	client := &verifClient{mayFail: true}
+	client := &verifClient{mayFail: true, honoursCancel: true, preferFailures: true}
 	s := &Store{client: client, logf: verifLogf, timeNow: verifTimeNow, allowLookup: true}
 	s.active.m = map[string]*cachedSecret{}
 	s.active.f = map[string]Secret{}
@@ -60,6 +61,16 @@ func verifHarnessC20Apply() {
 	okH := mapHas(s.active.m, "pfx/h")
 	okU := mapHas(s.active.m, "pfx/u")
 	assert("a-failing-field-does-not-stop-the-others", ghostCount("svc.request") == unknown)
+	unfilled := 0
+	for _, n := range names {
+		if !mapHas(s.active.m, "pfx/"+n) {
+			unfilled++
+			// a failure does not go unreported: the error names the field or its secret
+			msg := err.Error()
+			assert("every-failed-field-is-reported", or(strings.Contains(msg, "pfx/"+n), strings.Contains(msg, "\""+strings.ToUpper(n)+"\"")))
+		}
+	}
+	assert("only-fields-whose-own-lookup-failed-stay-unfilled", unfilled == failed)
 	if okB {
 		assert("bytes-field-equals-secret", bytesEq(t.B, vals["pfx/b"]))
 		if len(t.B) > 0 {
